@@ -2211,17 +2211,17 @@ func specPdrDeleted(e int, p pdr, r portRangeTernaryCartesianProduct) bool {
 //@ func (b *bess) addPDR#1() free(b *bess, p pdr)
 //@   requires b != nil && b.client != nil
 //@   ensures C03.pdr.add.count: gint("marshalfail") == old[int](gint("marshalfail")) && glen("bess") != old[int](glen("bess")) ==> glen("bess") == old[int](glen("bess"))+specCartLen(p.appFilter.srcPortRange, p.appFilter.dstPortRange)
-//@   ensures C03.pdr.add.entries: forall k int :: 0 <= k && k < glen("bess")-old[int](glen("bess")) ==> specPdrAdded(gentry("bess", old[int](glen("bess"))+k), p, specCartRule(p.appFilter.srcPortRange, p.appFilter.dstPortRange, k))
+//@   ensures C03.pdr.add.entries: forall m int :: old[int](glen("bess")) <= m && m < glen("bess") ==> specPdrAdded(gentry("bess", m), p, specCartRule(p.appFilter.srcPortRange, p.appFilter.dstPortRange, m-old[int](glen("bess"))))
 //@   loop 1 freshwrites pb.WildcardMatchCommandAddArg, pb.FieldData, pb.FieldData_ValueInt, pb.CommandRequest, E:*pb.FieldData
 //@   loop 1 invariant C03.pdr.add.l1.count: glen("bess") == old[int](glen("bess"))+rangeidx+1 && gint("marshalfail") == old[int](gint("marshalfail")) && len(portRules) == specCartLen(p.appFilter.srcPortRange, p.appFilter.dstPortRange)
-//@   loop 1 invariant C03.pdr.add.l1.rules: forall k int :: 0 <= k && k < len(portRules) ==> portRules[k] == specCartRule(p.appFilter.srcPortRange, p.appFilter.dstPortRange, k)
-//@   loop 1 invariant C03.pdr.add.l1.entries: forall k int :: 0 <= k && k <= rangeidx ==> specPdrAdded(gentry("bess", old[int](glen("bess"))+k), p, specCartRule(p.appFilter.srcPortRange, p.appFilter.dstPortRange, k))
+//@   loop 1 invariant C03.pdr.add.l1.rules: forall a int :: lo(portRules) <= a && a < hi(portRules) ==> at(portRules, a) == specCartRule(p.appFilter.srcPortRange, p.appFilter.dstPortRange, a-lo(portRules))
+//@   loop 1 invariant C03.pdr.add.l1.entries: forall m int :: old[int](glen("bess")) <= m && m < glen("bess") ==> specPdrAdded(gentry("bess", m), p, specCartRule(p.appFilter.srcPortRange, p.appFilter.dstPortRange, m-old[int](glen("bess"))))
 
 //@ func (b *bess) delPDR#1() free(b *bess, p pdr)
 //@   requires b != nil && b.client != nil
 //@   ensures C03.pdr.del.count: gint("marshalfail") == old[int](gint("marshalfail")) && glen("bess") != old[int](glen("bess")) ==> glen("bess") == old[int](glen("bess"))+specCartLen(p.appFilter.srcPortRange, p.appFilter.dstPortRange)
-//@   ensures C03.pdr.del.entries: forall k int :: 0 <= k && k < glen("bess")-old[int](glen("bess")) ==> specPdrDeleted(gentry("bess", old[int](glen("bess"))+k), p, specCartRule(p.appFilter.srcPortRange, p.appFilter.dstPortRange, k))
+//@   ensures C03.pdr.del.entries: forall m int :: old[int](glen("bess")) <= m && m < glen("bess") ==> specPdrDeleted(gentry("bess", m), p, specCartRule(p.appFilter.srcPortRange, p.appFilter.dstPortRange, m-old[int](glen("bess"))))
 //@   loop 1 freshwrites pb.WildcardMatchCommandDeleteArg, pb.FieldData, pb.FieldData_ValueInt, pb.CommandRequest, E:*pb.FieldData
 //@   loop 1 invariant C03.pdr.del.l1.count: glen("bess") == old[int](glen("bess"))+rangeidx+1 && gint("marshalfail") == old[int](gint("marshalfail")) && len(portRules) == specCartLen(p.appFilter.srcPortRange, p.appFilter.dstPortRange)
-//@   loop 1 invariant C03.pdr.del.l1.rules: forall k int :: 0 <= k && k < len(portRules) ==> portRules[k] == specCartRule(p.appFilter.srcPortRange, p.appFilter.dstPortRange, k)
-//@   loop 1 invariant C03.pdr.del.l1.entries: forall k int :: 0 <= k && k <= rangeidx ==> specPdrDeleted(gentry("bess", old[int](glen("bess"))+k), p, specCartRule(p.appFilter.srcPortRange, p.appFilter.dstPortRange, k))
+//@   loop 1 invariant C03.pdr.del.l1.rules: forall a int :: lo(portRules) <= a && a < hi(portRules) ==> at(portRules, a) == specCartRule(p.appFilter.srcPortRange, p.appFilter.dstPortRange, a-lo(portRules))
+//@   loop 1 invariant C03.pdr.del.l1.entries: forall m int :: old[int](glen("bess")) <= m && m < glen("bess") ==> specPdrDeleted(gentry("bess", m), p, specCartRule(p.appFilter.srcPortRange, p.appFilter.dstPortRange, m-old[int](glen("bess"))))
